@@ -353,6 +353,23 @@ theorem C05_rep_record_general_path (tys : List Ty) (cs cs' : List (Bool × Cell
   rw [encCellsGeneral_of_vals tys cs vs h hok ht hwf, encCellsGeneral_of_vals tys cs' vs h' hok' ht' hwf]
   exact ⟨rfl, rfl⟩
 
+/-- **whole sequences, rows in any forms**: a lazy (`IterData`) source whose records are given as cells, and a
+    numpy-backed sequence (`encSeqFields`: every field a strided view of the records, in its own dtype char and
+    byte order; `SequenceType.iterdata` delivers numpy scalars and decodes `S` items to `str`), are sent as the
+    reference encoding of the rows of values — flat or general path, whichever the column types select; two sources
+    holding the same rows as the same bytes -/
+theorem C05_rep_sequence_independent (tys : List Ty) (rows rows' : List (List (Bool × Cell))) (vss : List (List Val))
+    (h : rowsVals? rows = some vss) (h' : rowsVals? rows' = some vss)
+    (hok : ∀ r ∈ rows, ∀ c ∈ r, c.2.ok = true) (hok' : ∀ r ∈ rows', ∀ c ∈ r, c.2.ok = true)
+    (ht : ∀ r ∈ rows, r.map (·.2.ty?) = tys.map some) (ht' : ∀ r ∈ rows', r.map (·.2.ty?) = tys.map some)
+    (hwf : WF (.seq (tys.map fun ty => .base ty [])) (.rows (vss.map fun vs => .tuple (vs.map Data.scalar))) = true) :
+    encRowsCells tys rows = encRowsCells tys rows' ∧
+    encRowsCells tys rows = .ok (XdrSpec.enc (.seq (tys.map fun ty => .base ty []))
+      (.rows (vss.map fun vs => .tuple (vs.map Data.scalar)))) := by
+  simp only [WF, Bool.and_eq_true] at hwf
+  rw [encRowsCells_eq tys rows vss h hok ht hwf.1.2 hwf.2, encRowsCells_eq tys rows' vss h' hok' ht' hwf.1.2 hwf.2]
+  exact ⟨rfl, by simp [XdrSpec.enc]⟩
+
 /-- **every numeric representation exists**: the C-contiguous array `storeC` builds from in-range values in any
     numeric dtype char of the table, either byte order and any shape holds exactly those values (so the theorems
     above are not vacuous for any dtype char × byte order × shape) -/
@@ -416,6 +433,22 @@ example : encCellsFlat [.int32, .string, .float64] [.num .l (-2), .ustr [104, 10
     = encCellsFlat [.int32, .string, .float64] [.num .i (-2), .bstr [104, 105], .num .d 4607182418800017408] :=
   (C05_rep_record_independent _ _ _ [.num (-2), .str [104, 105], .num 4607182418800017408] (by decide) (by decide)
     (by decide)).1
+/-- a numpy-backed sequence (UInt16 big-endian, `S2`) of two records of 4 bytes, and the same rows from a lazy
+    source as (Python-int-like uint16 scalar, `bytes`) cells: same bytes -/
+def exFields : List NpArr :=
+  [⟨.H, true, 0, [2], [4], 0, [0, 7, 97, 98, 1, 0, 99, 0]⟩, ⟨.S, false, 2, [2], [4], 2, [0, 7, 97, 98, 1, 0, 99, 0]⟩]
+example : recordsOf exFields 2 = some [[(false, .num .H 7), (false, .ustr [97, 98])],
+    [(false, .num .H 256), (false, .ustr [99])]] := by decide
+example : encSeqFields [.uint16, .string] exFields 2
+    = encRowsCells [.uint16, .string] [[(true, .num .H 7), (false, .bstr [97, 98])], [(false, .num .H 256), (false, .bstr [99])]] := by
+  have e : encSeqFields [.uint16, .string] exFields 2 = encRowsCells [.uint16, .string]
+      [[(false, .num .H 7), (false, .ustr [97, 98])], [(false, .num .H 256), (false, .ustr [99])]] := by
+    have hr : recordsOf exFields 2 = some [[(false, .num .H 7), (false, .ustr [97, 98])],
+        [(false, .num .H 256), (false, .ustr [99])]] := by decide
+    simp only [encSeqFields, hr]
+  rw [e]
+  exact (C05_rep_sequence_independent [.uint16, .string] _ _ [[.num 7, .str [97, 98]], [.num 256, .str [99]]]
+    (by decide) (by decide) (by decide) (by decide) (by decide) (by decide) (by decide)).1
 def exSrc1 : Src := .struct [.arr exRepC, .val (.seq [.base .byte []]) (.rows [.tuple [.scalar (.num 7)]]), .arr exRepS]
 def exSrc2 : Src := .struct [.arr exRepR, .val (.seq [.base .byte []]) (.rows [.tuple [.scalar (.num 7)]]), .arr exRepU]
 example : exSrc1.view? = exSrc2.view? ∧ exSrc1.view?.isSome = true := ⟨by rfl, by rfl⟩
